@@ -65,7 +65,27 @@ impl Kind {
     }
 }
 
-const WRAPS: [&str; 14] = ["none", "macro", "macro-uninvoked", "if1", "if0", "interp", "loop", "loopdef", "macro-arg", "shadowed-first-segment", "expr-positions", "expr-repeat", "macro-named-a", "macro-arg-same-name"];
+const WRAPS: [&str; 18] = [
+    "none", "macro", "macro-uninvoked", "if1", "if0", "interp", "loop", "loopdef", "macro-arg", "shadowed-first-segment", "expr-positions",
+    "else-untaken", "if0-if0", "if0-else-untaken", "if1-if0",
+    "expr-repeat", "macro-named-a", "macro-arg-same-name",
+];
+
+/// Wrappers that put the use into conditional branches: (condition, the use stands in the `else` branch) from the
+/// outside in. In the *twin* of such a program every one of these branches is taken (the digits are flipped, nothing
+/// else changes, so every position stays where it is): what the assembler binds the use to there is what the
+/// scoping rules bind it to in the branch that is not taken.
+fn cond_shape(w: &str) -> Option<&'static [(u8, bool)]> {
+    Some(match w {
+        "if1" => &[(1, false)],
+        "if0" => &[(0, false)],
+        "else-untaken" => &[(1, true)],
+        "if0-if0" => &[(0, false), (0, false)],
+        "if0-else-untaken" => &[(0, false), (1, true)],
+        "if1-if0" => &[(1, false), (0, false)],
+        _ => return None,
+    })
+}
 const FORMS: [&str; 5] = ["a", "super.a", "super.super.a", "s1.a", "s1.s2.a"];
 const LEVELS: [&str; 3] = ["root", "s1", "s2"];
 const IMPORTS: [&str; 6] = ["star", "named", "alias", "ns", "twice", "block"];
@@ -138,7 +158,7 @@ impl Spec {
 }
 
 pub fn catalogue(thorough: bool) -> Vec<Spec> {
-    let wraps: Vec<usize> = if thorough { (0..WRAPS.len()).collect() } else { vec![0, WRAPS.len() - 3, WRAPS.len() - 1] };
+    let wraps: Vec<usize> = if thorough { (0..WRAPS.len()).collect() } else { vec![0, 13, WRAPS.len() - 3, WRAPS.len() - 1] };
     let kinds = [Kind::N, Kind::L, Kind::C];
     let mut out = vec![];
     for k0 in kinds {
@@ -263,6 +283,66 @@ pub struct Program {
     pub occs: Vec<Occ>,
     pub uses: Vec<UseInfo>,
     pub imp_suffix: String,
+    /// occurrences in code that is not assembled whose binding was taken from the twin program
+    pub twin_resolved: BTreeSet<usize>,
+    /// text put in front of every line (a comment with a character that takes 2 / 3 / 4 bytes in UTF-8 and 1 / 1 / 2
+    /// code units in UTF-16); columns of the model are UTF-16 columns, as in the protocol
+    pub line_prefix: &'static str,
+}
+
+pub const PREFIXES: [(&str, &str); 4] = [("none", ""), ("2-byte", "/* é */ "), ("3-byte", "/* → */ "), ("4-byte", "/* 💾 */ ")];
+
+impl Program {
+    fn spec_json(&self) -> Value {
+        let mut v = self.spec.to_json();
+        if !self.line_prefix.is_empty() {
+            v["line_prefix"] = json!(PREFIXES.iter().find(|x| x.1 == self.line_prefix).map(|x| x.0).unwrap_or(""));
+        }
+        v
+    }
+
+    /// Puts `prefix` in front of every line of every file and moves every column of the model.
+    pub fn with_line_prefix(mut self, prefix: &'static str) -> Program {
+        if prefix.is_empty() {
+            return self;
+        }
+        let w = prefix.encode_utf16().count() as u32;
+        for (_, t) in self.files.iter_mut() {
+            *t = t.lines().map(|l| format!("{}{}\n", prefix, l)).collect();
+        }
+        for d in self.defs.iter_mut() {
+            d.c0 += w;
+            d.c1 += w;
+        }
+        for o in self.occs.iter_mut() {
+            o.c0 += w;
+            o.c1 += w;
+            for pr in o.probes.iter_mut() {
+                pr.0 += w;
+            }
+        }
+        self.line_prefix = prefix;
+        self
+    }
+}
+
+/// byte offset of a UTF-16 column in a line (`None`: beyond the line or inside a character)
+pub fn col_to_byte(line: &str, col: u32) -> Option<usize> {
+    let mut units = 0u32;
+    for (i, c) in line.char_indices() {
+        if units == col {
+            return Some(i);
+        }
+        if units > col {
+            return None;
+        }
+        units += c.len_utf16() as u32;
+    }
+    if units == col {
+        Some(line.len())
+    } else {
+        None
+    }
 }
 
 struct Gen {
@@ -271,9 +351,11 @@ struct Gen {
     occs: Vec<Occ>,
     uses: Vec<UseInfo>,
     imp_suffix: String,
+    /// generate the twin (all wrapper branches taken)
+    twin: bool,
 }
 
-const INDS: [&str; 4] = ["", "  ", "    ", "      "];
+const INDS: [&str; 6] = ["", "  ", "    ", "      ", "        ", "          "];
 
 impl Gen {
     fn new() -> Gen {
@@ -283,6 +365,7 @@ impl Gen {
             occs: vec![],
             uses: vec![],
             imp_suffix: String::new(),
+            twin: false,
         }
     }
 
@@ -540,10 +623,21 @@ impl Gen {
                 });
                 self.path_occs(f, l, i.len() as u32 + 2, 0, path, level, path, w);
             }
-            "if1" | "if0" => {
-                self.line(f, format!("{}.if {} {{", i, if w == "if1" { 1 } else { 0 }));
-                self.use_block(f, ind + 1, 0, path, level, path, w, false);
-                self.close(f, ind);
+            "if1" | "if0" | "else-untaken" | "if0-if0" | "if0-else-untaken" | "if1-if0" => {
+                let shape = cond_shape(w).unwrap();
+                for (k, (c, in_else)) in shape.iter().enumerate() {
+                    // (twin: the branch with the use is the one that is taken)
+                    let c = if self.twin { if *in_else { 0 } else { 1 } } else { *c };
+                    self.line(f, format!("{}.if {} {{", INDS[ind + k], c));
+                    if *in_else {
+                        self.line(f, format!("{}nop", INDS[ind + k + 1]));
+                        self.line(f, format!("{}}} else {{", INDS[ind + k]));
+                    }
+                }
+                self.use_block(f, ind + shape.len(), 0, path, level, path, w, false);
+                for k in (0..shape.len()).rev() {
+                    self.close(f, ind + k);
+                }
             }
             "loop" | "loopdef" => {
                 self.line(f, format!("{}.loop 2 {{", i));
@@ -579,12 +673,24 @@ impl Gen {
             occs: self.occs,
             uses: self.uses,
             imp_suffix: self.imp_suffix,
+            twin_resolved: BTreeSet::new(),
+            line_prefix: "",
         }
     }
 }
 
 pub fn generate(spec: &Spec) -> Program {
+    generate_with(spec, false)
+}
+
+/// The same program with every branch of a conditional wrapper taken (see `cond_shape`).
+pub fn generate_twin(spec: &Spec) -> Program {
+    generate_with(spec, true)
+}
+
+fn generate_with(spec: &Spec, twin: bool) -> Program {
     let mut g = Gen::new();
+    g.twin = twin;
     match spec {
         Spec::Base { kinds, ulevel, form, wrap, use_first } => {
             g.line(0, "// a".into());
@@ -985,10 +1091,10 @@ pub fn apply_edits(text: &str, edits: &[(u32, u32, u32, u32, String)]) -> Result
     let off = |l: u32, c: u32| -> Result<usize, String> {
         let ls = *line_starts.get(l as usize).ok_or_else(|| format!("line {} outside the document", l))?;
         let le = line_starts.get(l as usize + 1).map(|e| e - 1).unwrap_or(text.len());
-        if ls + c as usize > le {
-            return Err(format!("column {} outside line {}", c, l));
+        match col_to_byte(&text[ls..le], c) {
+            Some(b) => Ok(ls + b),
+            None => Err(format!("column {} outside line {} (or inside a character)", c, l)),
         }
-        Ok(ls + c as usize)
     };
     let mut es: Vec<(usize, usize, &str)> = vec![];
     for (l0, c0, l1, c1, t) in edits {
@@ -1240,7 +1346,7 @@ fn src_line<'a>(p: &'a Program, file: usize, line: u32) -> &'a str {
 
 fn nav_checks(run: &Run, p: &Program, s: &mut Server) -> Result<(), Death> {
     let ctx = run.ctx;
-    let spec = p.spec.to_json();
+    let spec = p.spec_json();
     let sv = survey(p, s)?;
     let wanted = |req: &str, file: usize, line: u32, ch: u32| -> bool {
         match run.filter {
@@ -1591,7 +1697,7 @@ fn rename_request(s: &mut Server, file: &str, line: u32, ch: u32, name: &str) ->
 
 fn rename_checks(run: &Run, p: &Program, shared: &mut Server, asm0: &Asm) -> Result<(), Death> {
     let ctx = run.ctx;
-    let spec = p.spec.to_json();
+    let spec = p.spec_json();
     let sv = survey(p, shared)?;
     for (oi, o) in p.occs.iter().enumerate() {
         for (col, len, text) in o.probes.iter() {
@@ -1744,15 +1850,22 @@ fn rename_checks(run: &Run, p: &Program, shared: &mut Server, asm0: &Asm) -> Res
                     let lines: Vec<&str> = p.files[*f].1.lines().collect();
                     for (l0, c0, l1, c1, new_text) in es {
                         let here = format!("{}:{}:{}-{}", p.files[*f].0, l0, c0, c1);
-                        if l0 != l1 || (*l0 as usize) >= lines.len() || (*c1 as usize) > lines[*l0 as usize].len() || c1 < c0 {
+                        if l0 != l1 || (*l0 as usize) >= lines.len() || c1 < c0 {
                             problems.entry("edit-wrong-token").or_default().push(format!("edit range {} is not inside one line", here));
                             continue;
                         }
                         let line = lines[*l0 as usize];
+                        // (UTF-16 columns -> byte offsets)
+                        let (b0, b1) = match (col_to_byte(line, *c0), col_to_byte(line, *c1)) {
+                            (Some(a), Some(b)) => (a, b),
+                            _ => {
+                                problems.entry("edit-wrong-token").or_default().push(format!("edit range {} is not inside one line (`{}`)", here, line.trim()));
+                                continue;
+                            }
+                        };
                         let mut trivia_hit = false;
                         for (a, b, t) in trivia_spans(line) {
-                            let (c0, c1) = (*c0 as usize, *c1 as usize);
-                            if (c0 < b && c1 > a) || (c0 == c1 && c0 > a && c0 < b) {
+                            if (b0 < b && b1 > a) || (b0 == b1 && b0 > a && b0 < b) {
                                 let w = if t == Trivia::Comment { "edit-in-comment" } else { "edit-in-string" };
                                 problems.entry(w).or_default().push(format!("edit {} -> {:?} lies in `{}`", here, new_text, line.trim()));
                                 trivia_hit = true;
@@ -1761,11 +1874,9 @@ fn rename_checks(run: &Run, p: &Program, shared: &mut Server, asm0: &Asm) -> Res
                         if trivia_hit {
                             continue;
                         }
-                        let old = &line[*c0 as usize..*c1 as usize];
+                        let old = &line[b0..b1];
                         let bytes = line.as_bytes();
-                        let boundary_ok = (*c0 == 0 || !is_ident_char(bytes[*c0 as usize - 1]))
-                            && ((*c1 as usize) == bytes.len() || !is_ident_char(bytes[*c1 as usize]))
-                            && !old.is_empty();
+                        let boundary_ok = (b0 == 0 || !is_ident_char(bytes[b0 - 1])) && (b1 == bytes.len() || !is_ident_char(bytes[b1])) && !old.is_empty();
                         let spelled = old.split('.').any(|s| s == text) || old.split(" as ").any(|s| s.trim() == text);
                         let hit = p.occs.iter().find(|x| x.file == *f && x.line == *l0 && x.c0 == *c0 && x.c1 == *c1);
                         let refers_elsewhere = match (hit, target) {
@@ -1802,6 +1913,25 @@ fn rename_checks(run: &Run, p: &Program, shared: &mut Server, asm0: &Asm) -> Res
                     for f in need {
                         if edits.get(&f).map(|e| e.is_empty()).unwrap_or(true) {
                             problems.entry("missing-file").or_default().push(format!("no edit for {} although it contains occurrences of the symbol", p.files[f].0));
+                        }
+                    }
+                }
+                // -- (5) occurrences in branches that are not taken (nothing is assembled for them, so a missed one does
+                //        not show in the build): those that refer to the renamed symbol are part of the edit
+                if let Some(t) = target {
+                    let anchored_at_def = matches!(o.role, Role::DefSite(_));
+                    for xi in p.twin_resolved.iter() {
+                        let x = &p.occs[*xi];
+                        if x.resolved != Resolved::Def(t) || (p.defs[t].multi && !anchored_at_def) {
+                            continue;
+                        }
+                        let covered = edits.get(&x.file).map_or(false, |es| es.iter().any(|e| e.0 == x.line && e.2 == x.line && e.1 <= x.c0 && e.3 >= x.c1));
+                        if !covered {
+                            problems.entry("missing-occurrence-in-untaken-branch").or_default().push(format!(
+                                "no edit for {} (`{}`), which refers to the renamed symbol (bound to it when the branch is taken)",
+                                loc_str(&p.files, &occ_loc(x)),
+                                src_line(p, x.file, x.line)
+                            ));
                         }
                     }
                 }
@@ -1973,9 +2103,12 @@ fn find_segment(text: &str, name: &str) -> Option<usize> {
 // driver
 // ------------------------------------------------------------------------------------------
 
-fn run_program(run: &Run, spec: &Spec, c15: bool) {
+fn run_program(run: &Run, spec: &Spec, prefix: &'static str, c15: bool) {
     let ctx = run.ctx;
-    let mut p = generate(spec);
+    let mut p = generate(spec).with_line_prefix(prefix);
+    if !prefix.is_empty() {
+        ctx.count(&format!("programs_with_line_prefix_{}", p.spec_json()["line_prefix"].as_str().unwrap_or("")));
+    }
     ctx.count("programs_generated");
     let mut s = match open_server(&p.files) {
         Ok(s) => s,
@@ -1984,7 +2117,7 @@ fn run_program(run: &Run, spec: &Spec, c15: bool) {
             run.finding(
                 format!("{}:open:server-died", if c15 { "rename" } else { "nav" }),
                 format!("{:?}", d),
-                json!({"spec": spec.to_json(), "files": files_json(&p.files)}),
+                json!({"spec": p.spec_json(), "files": files_json(&p.files)}),
             );
             return;
         }
@@ -2024,6 +2157,41 @@ fn run_program(run: &Run, spec: &Spec, c15: bool) {
         ctx.cap(format!("{} for {}", e, spec.to_json()));
         return;
     }
+    // uses in branches that are not taken: bound as in the twin program, where they are assembled
+    let wrap_name = WRAPS[match spec {
+        Spec::Base { wrap, .. } => *wrap,
+        Spec::Import { wrap, .. } => *wrap,
+    }];
+    if cond_shape(wrap_name).is_some() && p.occs.iter().any(|o| o.wrap == wrap_name && o.resolved == Resolved::SymmetricOnly && o.role != Role::Super) {
+        let mut t = generate_twin(spec).with_line_prefix(prefix);
+        let same_layout = t.occs.len() == p.occs.len()
+            && t.defs.len() == p.defs.len()
+            && t.occs.iter().zip(p.occs.iter()).all(|(a, b)| (a.file, a.line, a.c0, a.c1) == (b.file, b.line, b.c0, b.c1));
+        if !same_layout {
+            ctx.count("machinery_layout_assumption_broken");
+            ctx.cap(format!("the twin of {} is laid out differently", spec.to_json()));
+            return;
+        }
+        match assemble(&t.files) {
+            Ok(tasm) if tasm.diags.is_empty() => {
+                if resolve(&mut t, &tasm).is_ok() {
+                    for i in 0..p.occs.len() {
+                        if p.occs[i].wrap == wrap_name && p.occs[i].resolved == Resolved::SymmetricOnly && p.occs[i].role != Role::Super {
+                            if let Resolved::Def(d) = t.occs[i].resolved {
+                                p.occs[i].resolved = Resolved::Def(d);
+                                p.twin_resolved.insert(i);
+                                ctx.count("occurrences_in_untaken_branches_bound_as_in_the_twin_with_all_branches_taken");
+                            }
+                        }
+                    }
+                } else {
+                    ctx.count("twin_programs_without_a_verdict");
+                }
+            }
+            // (the twin has an error, e.g. the path does not resolve: the use has no binding; symmetry only)
+            _ => ctx.count("twin_programs_not_error_free_(symmetry_only)"),
+        }
+    }
     ctx.count("programs_in_scope");
     ctx.count(&format!("programs_in_scope_wrap_{}", WRAPS[match spec {
         Spec::Base { wrap, .. } => *wrap,
@@ -2054,7 +2222,7 @@ fn run_program(run: &Run, spec: &Spec, c15: bool) {
         run.finding(
             format!("{}:server-died", if c15 { "rename" } else { "nav" }),
             format!("the server died while answering: {:?}", d),
-            json!({"spec": spec.to_json(), "files": files_json(&p.files)}),
+            json!({"spec": p.spec_json(), "files": files_json(&p.files)}),
         );
     }
 }
@@ -2071,7 +2239,8 @@ pub fn run(ctx: &Ctx, replay: Option<&Value>) -> i32 {
             }
         };
         let run = Run { ctx, verbose: true, filter: if case.get("request").is_some() { Some(case) } else { None }, reproduced: Default::default() };
-        run_program(&run, &spec, c15);
+        let prefix = PREFIXES.iter().find(|x| Some(x.0) == case["spec"]["line_prefix"].as_str()).map(|x| x.1).unwrap_or("");
+        run_program(&run, &spec, prefix, c15);
         crate::lspdrv::cleanup_root();
         let n = run.reproduced.load(std::sync::atomic::Ordering::Relaxed);
         println!("{} replay: {} failing check(s)", ctx.id, n);
@@ -2087,7 +2256,30 @@ pub fn run(ctx: &Ctx, replay: Option<&Value>) -> i32 {
     }
     ctx.set("catalogue_size", json!(specs.len()));
     let run = Run { ctx, verbose: false, filter: None, reproduced: Default::default() };
-    specs.par_iter().for_each(|spec| run_program(&run, spec, c15));
+    // the same programs with non-ASCII text in front of every line (the positions of the protocol count UTF-16 code
+    // units): the unwrapped use, definitions first; thorough: each of them with each prefix, quick: every 5th, the
+    // prefixes in turn
+    let mut work: Vec<(&Spec, &'static str)> = specs.iter().map(|s| (s, "")).collect();
+    let mut k = 0usize;
+    for s in specs.iter() {
+        let plain = match s {
+            Spec::Base { wrap, use_first, .. } => *wrap == 0 && !*use_first,
+            Spec::Import { wrap, import_last, .. } => *wrap == 0 && !*import_last,
+        };
+        if !plain {
+            continue;
+        }
+        k += 1;
+        if ctx.tier.is_thorough() {
+            for (_, pre) in PREFIXES.iter().skip(1) {
+                work.push((s, pre));
+            }
+        } else if k % 5 == 0 {
+            work.push((s, PREFIXES[1 + (k / 5) % 3].1));
+        }
+    }
+    ctx.set("programs_with_a_line_prefix", json!(work.len() - specs.len()));
+    work.par_iter().for_each(|(spec, prefix)| run_program(&run, spec, prefix, c15));
     crate::lspdrv::cleanup_root();
     ctx.set(
         "bound",
@@ -2109,7 +2301,7 @@ pub fn run(ctx: &Ctx, replay: Option<&Value>) -> i32 {
                 "programs are in scope only if a fresh server publishes no diagnostics for them; the rest is counted",
                 "'assembles' is judged by an in-process mos_core build with the language server's options (greedy analysis, pc $c000)",
                 "offered-but-no-edit is counted, not judged; identical duplicate edits are dropped before applying (counted)",
-                "texts are ASCII, so byte columns = UTF-16 columns",
+                "identifiers are ASCII; the non-ASCII text is a comment in front of each line (2-, 3- and 4-byte characters), columns are UTF-16 columns",
                 "each rename runs on a fresh server; prepareRename (read-only) shares one server per program",
             ],
         )
